@@ -224,6 +224,10 @@ pub fn load_corpus(verif: &str, prop: &str) -> Vec<(Vec<String>, Option<String>,
 pub fn run_docprop(ctx: &mut Ctx, p: DocProp) {
     let per = if ctx.thorough { 1200 } else { 300 };
     let mut sh = Shards::new(&ctx.out, "docs", DOC_IMPORTS, "doccase", p.evals, "show_case", per);
+    // the byte-level lexer model against the real reader on the documents of this check (all
+    // serialisation styles: declarations, DOCTYPE, comments, CDATA, quoting, blanks)
+    let mut lx = crate::lex::LexShards::new(&ctx.out, ctx.thorough);
+    let lex_cap = if ctx.thorough { 6000 } else { 1500 };
     let mut hist = Hist::default();
     let mut samples: Vec<J> = vec![];
     let mut distinct = std::collections::HashSet::new();
@@ -473,6 +477,11 @@ pub fn run_docprop(ctx: &mut Ctx, p: DocProp) {
         if kind == "fixed-very-deep" {
             opts.truncate(1);
         }
+        if lx.sh.total < lex_cap {
+            for d in &bytes {
+                lx.add(d, kind);
+            }
+        }
         let b = build_case(Some(&docs), &bytes, &cfg, &opts, &mut sh.intern, vec![("kind", json::s(kind))]);
         hist.add(kind);
         hist.add(&format!("docs={}", docs.len()));
@@ -505,6 +514,11 @@ pub fn run_docprop(ctx: &mut Ctx, p: DocProp) {
     }
     let files = sh.finish();
     ctx.shards.extend(files);
+    for (k, v) in &lx.kinds {
+        hist.addn(k, *v);
+    }
+    ctx.meta.push(("lexer_cases", J::N(lx.sh.total as i64)));
+    ctx.shards.extend(lx.sh.finish());
     if matches!(ctx.prop.as_str(), "C03" | "C06" | "C01" | "C04") {
         evaluations += crate::ops::run_mixed(ctx, &mut hist);
     }
